@@ -12,6 +12,9 @@ def gen_cases(seed, n_cases, maxn=25):
                                 "dmax": float(rng.choice([2.0, 4.0, 6.0])), "dmin": float(rng.choice([0.0, 0.0, 0.5, 1.5])), "seed": int(rng.integers(1 << 30))}
 
 
+KINDS = ["tailcut", "twosided", "twosided_headcut", "mixed", "cut_after_merge", "same_chain", "single_same"]
+
+
 def gen_scenario_cases(seed, n_cases):
     """role-based arrangements that drive trace_chains into its rare branches (a chain head stolen by a closer exit site, a loose chain
     end that gets a new tail, a tail cut off by a closer entry site, a chain connecting on both sides at once), with random distances,
@@ -19,7 +22,7 @@ def gen_scenario_cases(seed, n_cases):
     this family is recorded by tools (see DESIGN.md): plain random clusters reach the tail-cut branch in < 1% of the cases."""
     rng = np.random.default_rng(seed + 1921)
     for ci in range(n_cases):
-        yield (ci, "scenario", ci % 4), {"scenario": ["tailcut", "twosided", "twosided_headcut", "mixed"][ci % 4], "nt": int(rng.choice([1, 1, 2, 3])), "dmax": float(rng.choice([4.0, 10.0])),
+        yield (ci, "scenario", ci % len(KINDS)), {"scenario": KINDS[ci % len(KINDS)], "nt": int(rng.choice([1, 1, 2, 3])), "dmax": float(rng.choice([4.0, 10.0])),
                                          "dmin": float(rng.choice([0.0, 0.0, 0.8])), "ordered": bool(rng.random() < 0.75), "clutter": int(rng.integers(0, 4)), "seed": int(rng.integers(1 << 30))}
 
 
@@ -50,6 +53,38 @@ def _scenario(rng, kind, dmax, dmin, origin):
     s["B"] = (O + a * u1, far())
     s["C"] = (far(), s["B"][0] + a2 * u1)
     cons += [("P", "B"), ("P", "C")]
+    if kind in ("same_chain", "single_same"):
+        # the loose end P has a predecessor A (chain A-P); a new chain (F-L, or the single particle F) could attach behind P and, at the
+        # same time, in front of a member of the SAME chain (A, or P itself)
+        HA = far()
+        s["A"] = (far(), HA)
+        w = rng.uniform(lo, dmax)
+        s["P"] = (HA + w * _unit(rng), O)
+        cons += [("A", "P"), ("A", "C")]
+        y = rng.uniform(lo, dmax)
+        if kind == "same_chain":
+            V = far()
+            s["F"] = (O + g * _unit(rng, -u1, 35.0), V)
+            s["L"] = (V + rng.uniform(lo, dmax) * _unit(rng), s["A"][0] + y * _unit(rng))
+            cons += [("C", "F"), ("F", "L"), ("L", "X")]
+        else:
+            s["F"] = (O + g * _unit(rng, -u1, 35.0), s["P"][0] + min(y, 0.95 * w if rng.random() < 0.5 else y) * _unit(rng))
+            cons += [("C", "F"), ("F", "X")]
+        s["X"] = (far(), far())
+    if kind == "cut_after_merge":
+        # a chain F-L attaches behind the loose end P and in front of an older chain (Z-)Q in one step; later E, closer to P's exit site, cuts
+        # that merged tail off again: the tail's members were appended to the table at different times
+        W, V = far(), far()
+        v1, w1 = _unit(rng), _unit(rng)
+        z = rng.uniform(lo + 0.3 * dmax, 0.9 * dmax)
+        s["Q"] = (W + z * v1, far())
+        if rng.random() < 0.5:
+            s["Z"] = (far(), W); cons += [("Z", "Q"), ("Z", "F")]
+        s["F"] = (O + g * _unit(rng, -u1, 35.0), V)
+        s["L"] = (V + rng.uniform(lo, dmax) * w1, s["Q"][0] + rng.uniform(lo, max(lo + 0.01, z - 0.05 * dmax)) * v1)
+        s["E"] = (O + h * _unit(rng, -u1, 35.0), far())
+        s["X"] = (far(), far())
+        cons += [("C", "F"), ("Q", "F"), ("F", "L"), ("F", "E"), ("L", "E"), ("E", "X")]
     if kind in ("tailcut", "mixed"):
         s["D"] = (O + g * _unit(rng, -u1, 35.0), far())
         s["E"] = (O + h * _unit(rng, -u1, 35.0), far())
@@ -76,7 +111,7 @@ def _scenario_lists(c, rng):
     ent, ex = [], []
     sid = 0
     for t in range(c["nt"]):
-        kind = c["scenario"] if t == 0 else ["tailcut", "twosided", "twosided_headcut", "mixed"][int(rng.integers(0, 4))]
+        kind = c["scenario"] if t == 0 else KINDS[int(rng.integers(0, len(KINDS)))]
         s, cons = _scenario(rng, kind, c["dmax"], c["dmin"], rng.uniform(200, 400, 3))
         for k in range(c["clutter"]):
             s[f"K{k}"] = (rng.uniform(200, 400, 3) + 30 * c["dmax"] * (k + 1), rng.uniform(200, 400, 3) - 35 * c["dmax"] * (k + 1))
@@ -175,3 +210,12 @@ def replay_zero_distance():
     df = out.df
     linked = df.loc[df["subtomo_id"] == 1.0, "object_id"].values[0] == df.loc[df["subtomo_id"] == 2.0, "object_id"].values[0]
     return {"reproduced": bool(linked), "input": "exit(1) == entry(2), min_distance=0, max_distance=5", "observed": df[["subtomo_id", "object_id", "geom2", "geom4"]].values.tolist()}
+
+
+def replay_scenarios(n=140):
+    """search the role-based arrangements for a native failure of the property"""
+    for key, c in gen_scenario_cases(5, n):
+        r = run_case(c)
+        if r is not None:
+            return {"reproduced": True, "input": c, "observed": r}
+    return {"reproduced": False, "input": f"{n} role-based arrangements", "observed": None}
